@@ -222,6 +222,10 @@ def run(ctx):
 
     pr = Probes()
     pr.watch("ural.fingerprint_url:strip_lang_subdomains_from_hostname", want_args=False)
+    if ctx.tier == "thorough":
+        # the C14 contracts also run on every value these workloads push through unquote / safely_quote / upper_quoted
+        from vf import contracts_quote as cq
+        cq.QuoteProbes(ctx, pr, prefix="C06:inner")
     pr.watch("ural.fingerprint_url:fingerprint_url", want_args=False)
     pr.watch("ural.fingerprint_url:lang_query_item_filter", want_args=False, lines=False)
     pr.start()
